@@ -141,7 +141,7 @@ package main
 // channel; the answer returned is the one received on that entry's answer channel; after a match the entry is
 // unregistered before the matching lock is released for the last time.
 //@ func (i *IPC) ClientOffers(arg messages.Arg, response *[]byte) (err error)
-//@   props C02, C03, C04
+//@   props C02, C03, C04, C14
 //@   flag concurrent nosafety paired-send=Broker$1 lifetime=After
 //@   requires i != nil && i.ctx != nil && response != nil
 //@   at entry ghost bridgeOK = false
@@ -155,7 +155,7 @@ package main
 // ProxyAnswers: the answer is routed by session id: the only send is on the answer channel of the entry registered
 // under the id decoded from the request, with the decoded answer.
 //@ func (i *IPC) ProxyAnswers(arg messages.Arg, response *[]byte) (err error)
-//@   props C02, C04
+//@   props C02, C04, C14
 //@   flag concurrent nosafety
 //@   requires i != nil && i.ctx != nil && response != nil
 //@   at call send assert {routed-by-session-id} ch == snowflake.answerChannel && value == answer && success
@@ -191,3 +191,21 @@ package main
 //@   requires ctx != nil
 //@   ensures {announced-pattern} !nonSupported ==> r == sup(ruleExact(pattern), ruleName(pattern), ruleExact(ctx.allowedRelayPattern), ruleName(ctx.allowedRelayPattern))
 //@   ensures {legacy-proxies-get-the-presumed-pattern} nonSupported ==> r == sup(ruleExact(ctx.presumedPatternForLegacyClient), ruleName(ctx.presumedPatternForLegacyClient), ruleExact(ctx.allowedRelayPattern), ruleName(ctx.allowedRelayPattern))
+//
+// ---- HTTP handlers (C14): for ANY request the handler performs exactly one response action (a status line or a
+// body write), and the safety sweep is on: no reachable panic, index, nil or type-assertion failure. ----
+//@ func proxyPolls(i *IPC, w http.ResponseWriter, r *http.Request)
+//@   props C14
+//@   requires i != nil && i.ctx != nil && w != nil && r != nil
+//@   ensures {exactly-one-response-action} calls(WriteHeader) + calls(Write) == 1
+//
+//@ func clientOffers(i *IPC, w http.ResponseWriter, r *http.Request)
+//@   props C14
+//@   requires i != nil && i.ctx != nil && w != nil && r != nil
+//@   at call ClientOffers assert {legacy-and-versioned-requests-take-the-same-path} arg1.RemoteAddr == ""
+//@   ensures {exactly-one-response-action} calls(WriteHeader) + calls(Write) == 1
+//
+//@ func proxyAnswers(i *IPC, w http.ResponseWriter, r *http.Request)
+//@   props C14
+//@   requires i != nil && i.ctx != nil && w != nil && r != nil
+//@   ensures {exactly-one-response-action} calls(WriteHeader) + calls(Write) == 1
